@@ -1124,20 +1124,34 @@ void Preprocessor::dump(std::ostream &out) const
 
 std::size_t Preprocessor::calculateHash(const std::string &toolinfo) const
 {
-    std::string hashData = toolinfo;
+    // every component is length-prefixed or terminated, line and column are written in full:
+    // different inputs give different hash data
+    std::string hashData = std::to_string(toolinfo.size()) + ':' + toolinfo;
     for (const simplecpp::Token *tok = mTokens.cfront(); tok; tok = tok->next) {
         if (!tok->comment) {
+            hashData += std::to_string(tok->str().size());
+            hashData += ':';
             hashData += tok->str();
-            hashData += static_cast<char>(tok->location.line);
-            hashData += static_cast<char>(tok->location.col);
+            hashData += std::to_string(tok->location.line);
+            hashData += ':';
+            hashData += std::to_string(tok->location.col);
+            hashData += ';';
         }
     }
     for (const auto &filedata : mFileCache) {
+        hashData += 'F';
+        hashData += std::to_string(filedata->filename.size());
+        hashData += ':';
+        hashData += filedata->filename;
         for (const simplecpp::Token *tok = filedata->tokens.cfront(); tok; tok = tok->next) {
             if (!tok->comment) {
+                hashData += std::to_string(tok->str().size());
+                hashData += ':';
                 hashData += tok->str();
-                hashData += static_cast<char>(tok->location.line);
-                hashData += static_cast<char>(tok->location.col);
+                hashData += std::to_string(tok->location.line);
+                hashData += ':';
+                hashData += std::to_string(tok->location.col);
+                hashData += ';';
             }
         }
     }
